@@ -102,6 +102,9 @@ func checkSig(role string, body io.Reader, digests map[string]string) error {
 			return errors.New("malformed signature")
 		}
 		parts := strings.SplitN(line[1:], " ", 4)
+		if len(parts) != 4 {
+			return errors.New("malformed signature")
+		}
 		sums := parts[0] + " " + parts[1]
 		name := parts[3]
 		calculated := digests[name]
